@@ -46,30 +46,85 @@ type Config struct {
 	Permute  bool
 }
 
-// runHistory executes history (+ optionally one more op) on a fresh instance
-// inside one controlled execution (default schedule: deterministic).
+// runHistory executes history on a fresh instance inside controlled
+// executions: the default (deterministic) schedule, and - when the
+// configuration asks for it - every order of the map iterations performed by
+// the last operation (explored permutation choices; the earlier operations are
+// replayed quietly). All explored executions must agree on state and
+// observation.
 func runHistory(h *Harness, tier string, cfg int, c Config, hist []string, checkAll bool) (key string, obs string, viol string, x *vrt.Exec) {
-	x = vrt.Run(vrt.RunOpts{Permute: false}, func() {
+	var firstKey, firstObs string
+	n := 0
+	body := func() string {
+		var k, o, v string
 		inst := h.New(tier, cfg)
-		for i, op := range hist {
-			o, v := inst.Apply(op)
-			if v != "" && (checkAll || i == len(hist)-1) {
-				setRes(&viol, fmt.Sprintf("step %d %s: %s", i+1, op, v))
-				return
+		apply := func(i int, op string) bool {
+			oo, vv := inst.Apply(op)
+			if vv != "" && (checkAll || i == len(hist)-1) {
+				v = fmt.Sprintf("step %d %s: %s", i+1, op, vv)
+				return false
 			}
 			if i == len(hist)-1 {
-				setRes(&obs, o)
+				o = oo
+			}
+			return true
+		}
+		ok := true
+		if len(hist) > 1 {
+			vrt.Quiet(func() {
+				for i, op := range hist[:len(hist)-1] {
+					if !apply(i, op) {
+						ok = false
+						return
+					}
+				}
+			})
+		}
+		if ok && len(hist) > 0 {
+			ok = apply(len(hist)-1, hist[len(hist)-1])
+		}
+		if ok {
+			k = inst.Key()
+		}
+		if v != "" {
+			vrt.Fail("%s", v)
+		}
+		return k + "\x00" + o
+	}
+	ex := &vrt.Explorer{Bound: 0, Permute: c.Permute, Body: body}
+	ex.Oracle = func(xx *vrt.Exec, outcome string) string {
+		x = xx
+		parts := strings.SplitN(outcome, "\x00", 2)
+		if len(parts) < 2 {
+			return ""
+		}
+		if n == 0 {
+			firstKey, firstObs = parts[0], parts[1]
+		} else if parts[0] != firstKey || parts[1] != firstObs {
+			return "the result of the last operation depends on map iteration order: state/observation differ between two orders"
+		}
+		n++
+		return ""
+	}
+	ex.OnViolation = func(v *vrt.Violation) bool {
+		if viol == "" {
+			if v.Kind == "oracle" || v.Kind == vrt.VFail {
+				viol = v.Detail
+			} else {
+				viol = v.Kind + ": " + v.Detail
 			}
 		}
-		setRes(&key, inst.Key())
-	})
-	if x.Verdict != vrt.VNone {
-		viol = x.Verdict + ": " + x.VerdictMsg
-		for _, s := range x.Stacks {
-			viol += " | " + s
-		}
+		return false
 	}
-	return
+	if !c.Permute {
+		ex.MaxExecs = 1
+	}
+	ex.Explore(nil, false)
+	if x == nil {
+		x = &vrt.Exec{}
+	}
+	x.Steps = ex.Steps
+	return firstKey, firstObs, viol, x
 }
 
 //go:norace
